@@ -151,7 +151,7 @@ func runC01(r *Run) {
 	if mode == 3 {
 		stratKind = "precise"
 	}
-	nTasks := 2 + t.Intn(5, "tasks")
+	nTasks := 2 + t.Intn(scale(5, 7), "tasks")
 	initial := 1 + t.Intn(4, "initial-limit")
 	if t.Chance(10, "big-limit") {
 		initial = 5 + t.Intn(36, "big")
@@ -219,7 +219,7 @@ func runC01(r *Run) {
 	var mu sync.Mutex // harness ledger; never held across a scheduling point
 	var tasks []*Task
 	for i := 0; i < nTasks; i++ {
-		rounds := 1 + t.Intn(4, "rounds")
+		rounds := 1 + t.Intn(scale(4, 6), "rounds")
 		type rd struct {
 			hold  time.Duration
 			o     int
